@@ -8,10 +8,11 @@ RULE = ("one sweep of SmootherGive and SmootherTake (1 and 4 threads, scratch ve
 
 
 def run(ctx):
-    ctx.prove(extra_modules=["GMGProofs.Props.C06c", "GMGProofs.Props.C06d"])
+    ctx.prove(extra_modules=["GMGProofs.Props.C06c", "GMGProofs.Props.C06d", "GMGProofs.Props.C06g"])
     h = ctx.build_harness("h_ops")
     ctx.pipe([h, "smooth", "60" if ctx.tier == "quick" else "1200", "13", "16"], "smooth", label="smoother-sweeps")
-    # code-level model (GMGModel/SmootherCode.lean): stored line matrices, temp = rhs - A_sc^ortho x, one sweep
+    # code-level models (GMGModel/SmootherCode.lean take, GMGModel/SmootherGiveCode.lean give): stored line matrices,
+    # temp = rhs - A_sc^ortho x, one sweep; give / 1 thread bit for bit against the scatter model
     hc = ctx.build_harness("h_smcode")
     ctx.pipe([hc, "smooth", "30" if ctx.tier == "quick" else "400", "13", "16"], "smcode", label="smoother-code-level")
     if ctx.tier == "thorough":
